@@ -8,6 +8,15 @@
 // TlsClientConfig::init are extracted from /repo on every run and compiled verbatim (closures, builder chains);
 // rustls / quinn builders, PEM loading and the root stores are stubs that record what was installed.  Loop-free.
 #![allow(dead_code, unused_variables, unused_macros, static_mut_refs, unused_imports, unused_mut)]
+// `tracing::level!(..)` written with its path by an edit keeps compiling (log statements have no effect on the checks)
+pub mod tracing {
+    macro_rules! trace { ($($t:tt)*) => { () } }
+    macro_rules! debug { ($($t:tt)*) => { () } }
+    macro_rules! info { ($($t:tt)*) => { () } }
+    macro_rules! warn_ { ($($t:tt)*) => { () } }
+    macro_rules! error { ($($t:tt)*) => { () } }
+    pub(crate) use {trace, debug, info, warn_ as warn, error};
+}
 use std::sync::Arc;
 use std::time::Duration;
 use std::convert::TryInto;
